@@ -206,6 +206,18 @@ def _compiled(case, pos, weights, out):
     _oracle(out, 'partition_parallel[compiled]', case, pos, weights, res)
 
 
+def pin(case):
+    from abx_sim.analysis import tsc
+    from e1_threads import harness as H
+    ft = _f(case['dtype'])
+    pos = np.array(case['pos'], dtype=ft).reshape(-1, 3)
+    weights = None if case['weights'] is None else np.array(case['weights'], dtype=ft)
+    return H.pin_with(lambda c: H.run(lambda: tsc.partition_parallel(pos.copy(), c['npartition'], c['box'],
+                                                                     weights=None if weights is None else weights.copy(),
+                                                                     coord=c['coord'], nthread=c['nthread'], sort=c['sort']),
+                                      c['sched']), case)
+
+
 def shrink(case):
     c = dict(case)
     n = len(case['pos'])
